@@ -2,6 +2,19 @@
 """Imports confirmed seeded changes from /tmp/seeded-out into /verif/seeded/<prop>-<variant>/."""
 import json, os, re, shutil, sys
 SUMMARY = {
+ "C01-C": ("rehash_in_place: hash hoisted out of the 'inner loop and refreshed after a swap with hasher(new_i) instead of slot i", "in-place rehash with a wrapped overflow chain and two distinct hashes (survived 3x5M random ops of the author's own differential harness)"),
+ "C01-D": ("RawTable::insert re-probes after reserve(1) only if the bucket count changed (same idea as C14-A)", "vacant-entry insert at full load whose first probe window is 16 live entries in a table at most half live (never found in 300M random ops by the author's harness)"),
+ "C04-C": ("rehash_in_place hashes the displaced element after replace_ctrl_hash has already rewritten the control byte", "a hasher panic at exactly that call in the cross-probe-group swap case of an in-place rehash"),
+ "C04-D": ("new helper reset_to_empty_singleton drops the table in place before setting it to NEW (used by clone_from from an unallocated source)", "clone_from with a never-allocated source and a destructor panic in the destination"),
+ "C06-C": ("Bucket index encoding for zero-sized elements scaled by align_of::<T>() in from/to_base_index but not in next_n", "a zero-sized element type with alignment > 1 and retain/extract_if on a HashTable"),
+ "C06-D": ("RawIterHashInner::next ends the probe at a group containing EMPTY or DELETED", "iter_hash for an element pushed into a later probe group behind a tombstone"),
+ "C09-C": ("fold_impl rewritten to walk the remaining groups in pairs, assuming an odd number of groups follows", "next() switched to fold() at a prefix that leaves the iterator in an odd-numbered non-last group of a table with >= 64 buckets and an element in the last group"),
+ "C10-C": ("Bucket::next_n ZST branch computes invalid_mut(offset + 1)", "zero-sized elements in a table with > 16 buckets: retain/extract_if on an entry in bucket >= 16"),
+ "C10-D": ("RawDrain::drop copies the table back to its owner before dropping the remaining elements", "a destructor panic while a Drain is being dropped: the collection is left full of dropped/moved-out elements"),
+ "C11-C": ("clone_from_impl skips the element-cloning loop for zero-sized element types", "clone()/clone_from of a table of zero-sized elements with observable Clone/Drop"),
+ "C11-D": ("clone_from_impl unwind guard records index instead of index + 1", "a Clone panic after at least one element was cloned: the most recent clone is leaked"),
+ "C13-C": ("reserve_rehash_inner takes the in-place branch only when there is no drop function", "churn with element types that have a destructor: tombstones are never reclaimed in place"),
+ "C19-C": ("RawIterRange::split skips leading empty groups with an off-by-one loop guard", "a range handed to split() whose groups hold no full bucket (sparse table, >= 4 threads): the neighbour's first group is delivered twice"),
  "C11-A": ("clone_from_impl rebuilds the clone's control bytes from EMPTY instead of copying the source's (tombstones become EMPTY)", "a source of >= 32 buckets with a tombstone inside a full run and a displaced key behind it"),
  "C11-B": ("clone_from_impl bit-copies buckets when the element type has no drop glue (Clone::clone never called)", "a Clone-but-not-Copy element type without drop glue and a non-trivial clone"),
  "C12-A": ("calculate_layout_for checks isize::MAX only for the data part, not data + control bytes", "element size 2^j-1 and len+additional just above one particular 7/8*2^k boundary (k=61 for u8)"),
